@@ -345,6 +345,12 @@ def r08_5(run):
             ok, why = False, 'returns %s' % src(v)
             if dotted(v) == 'self._closing_deferred':
                 ok = True
+                # ... but a *repeated* request (the leg on which a close is already pending) gets a Deferred of its own, relayed
+                # from the pending one: sharing one callback chain lets one caller's callbacks change what the others receive
+                rep = g.guarded_by(rn, lambda t: dotted(t) == 'self._closing_deferred')
+                if any(lab == 'T' for _, lab in rep):
+                    ok = False
+                    why = 'hands the shared pending Deferred to a repeated request: the callers share one callback chain, so a callback one of them adds changes (or fails) the outcome the others see'
             elif isinstance(v, ast.Call) and dotted(v.func) in ('defer.succeed', 'succeed'):
                 gs = g.guarded_by(rn, lambda t: isinstance(t, ast.Compare) and dotted(t.left) == 'self.state')
                 ok = any(lab == 'T' and const(t.ast.comparators[0]) in ('CLOSED', 'FAILED', ['CLOSED', 'FAILED']) for t, lab in gs)
@@ -420,6 +426,7 @@ RULES = [
 from ..selftest import M  # noqa: E402
 FS, FT, FC = 'txtorcon/stream.py', 'txtorcon/torstate.py', 'txtorcon/circuit.py'
 MUTANTS = [
+    M('repeated-close-shares-deferred', 'txtorcon/circuit.py', "        if self._closing_deferred:\n            d = defer.Deferred()\n\n            def closed(arg):\n                d.callback(arg)\n                return arg\n            self._closing_deferred.addBoth(closed)\n            return d\n\n        # actually-close the circuit", "        if self._closing_deferred:\n            return self._closing_deferred\n\n        # actually-close the circuit", ['R08.5']),
     M('close-wait-after-fanout', 'txtorcon/circuit.py', "            flags = self._create_flags(kw)\n            self.maybe_call_closing_deferred()\n            for x in self.listeners:\n                x.circuit_failed(self, **flags)", "            flags = self._create_flags(kw)\n            for x in self.listeners:\n                x.circuit_failed(self, **flags)\n            self.maybe_call_closing_deferred()", ['R08.4']),
     M('readd-returns-early', 'txtorcon/torstate.py', "        listen = ICircuitListener(icircuitlistener)\n        for circ in self.circuits.values():", "        listen = ICircuitListener(icircuitlistener)\n        if listen in self.circuit_listeners:\n            return\n        for circ in self.circuits.values():", ['R08.3']),
     M('terminal-first-sight-dropped', 'txtorcon/torstate.py', "        circ_id = int(args[0])\n\n        c = self._maybe_create_circuit(circ_id)", "        circ_id = int(args[0])\n        if circ_id not in self.circuits and args[1] in ('CLOSED', 'FAILED'):\n            return\n\n        c = self._maybe_create_circuit(circ_id)", ['R08.7']),
